@@ -36,7 +36,9 @@ StmtPos(stmts) == StmtPosAcc(stmts, 1, <<>>, <<>>, <<>>)
 
 StmtTouched(s, pos, o) ==
   LET tp == TouchedPath(o) IN
-  IF s.kind = "kv" THEN IsPrefixPath(tp, pos) \/ IsPrefixPath(pos, tp)
+  \* sorting reorders whole statements of a standard table, but rewrites the one statement that spells an inline table
+  IF o.op = "sort_values" THEN s.kind = "kv" /\ IsPrefixPath(pos, o.path)
+  ELSE IF s.kind = "kv" THEN IsPrefixPath(tp, pos) \/ IsPrefixPath(pos, tp)
   ELSE IsPrefixPath(tp, pos)
 
 \* ---- pieces ----
